@@ -255,3 +255,36 @@ Definition step (l : nodelist) (o : op) : nodelist :=
   | OpDescendants i d => node_descendants l i d
   | OpByPurlType pt => by_purl_type l pt
   end.
+
+(* ---- histories over a pool of live graphs ------------------------------------------
+   Real programs hold several node lists at once and pass one as the argument of an
+   operation on another.  A pool operation names the receiver slot, optionally the slot
+   whose list is the argument, and the slot that receives the result (the receiver's own
+   slot for the in-place operations).  Lists are values here: a step writes one slot and
+   leaves every other one as it was.  *)
+Fixpoint set_nth {A} (n : nat) (x : A) (l : list A) : list A :=
+  match l, n with
+  | [], _ => []
+  | _ :: r, O => x :: r
+  | y :: r, S k => y :: set_nth k x r
+  end.
+
+Definition with_arg (o : op) (l2 : nodelist) : op :=
+  match o with
+  | OpAdd _ => OpAdd l2
+  | OpUnion _ => OpUnion l2
+  | OpIntersect _ => OpIntersect l2
+  | OpRelateList _ a t => OpRelateList l2 a t
+  | o => o
+  end.
+
+Record pop := mk_pop { po_recv : nat; po_arg : option nat; po_op : op; po_dst : nat }.
+
+Definition pool_op (p : list nodelist) (po : pop) : op :=
+  match po_arg po with
+  | Some a => with_arg (po_op po) (nth a p empty_nl)
+  | None => po_op po
+  end.
+
+Definition pool_step (p : list nodelist) (po : pop) : list nodelist :=
+  set_nth (po_dst po) (step (nth (po_recv po) p empty_nl) (pool_op p po)) p.
